@@ -5,7 +5,7 @@ ID = 'C09'
 FLAVORS = ['default']
 RULE = ('ordered pairs (A, B) and sequences A1 A2 A3 B of terminated messages from the generators of C02/C05/C06 (incl. messages that fail midway, leave result blocks unfinished, '
         'leave parameters unread, or contain undefined headers); B is run after A on one context and alone on a fresh context of the implementation and the events of B are compared '
-        '(handler starts, parameters, output, newly queued errors); in a share of the pairs B arrives unterminated in the same input call as the end of A and is executed by a zero-length call; each scenario is also compared with the model. The error queue is large enough not to overflow and scripts do not query it, '
+        '(handler starts, parameters, output, newly queued errors); in a share of the pairs B arrives unterminated in the same input call as the end of A and is executed by a zero-length call, in another share B arrives complete in the same input call as the last message of A (that call must do what A does followed by what B does alone); each scenario is also compared with the model. The error queue is large enough not to overflow and scripts do not query it, '
         'so effects through queue and registers (excepted by the property) are not observed; when A nevertheless fills the queue (dozens of invalid characters) the overflow notifications are dropped from the comparison. Non-trivial: A ran a handler and B ran a handler; distinct = distinct lines.')
 MODELLED = 'all per-message and per-unit scratch state of scpi_t (first_output, output_count, input_count, cmd_error, arbitrary_remaining, param_list, cmd_prev) is in ParserModel.ctx'
 ASSUMPTIONS = ['effects that flow through the status registers and the error queue are excepted by the property; "queue drained" notifications (error callback with 0) are dropped from the comparison']
@@ -110,6 +110,16 @@ def streams(tier, rng):
             pairs.append((len(cases), len(ins2), 1, [x for _, x in ins], Bnt + b' <flush>'))
             cases += [ab, b]
             continue
+        if capb == 256 and len(ins[-1][1]) + len(B) < 240 and rng.random() < 0.25:
+            # B arrives complete in the same input call as the last message of A: what that call does must be what it does for A
+            # alone followed by what B does alone
+            ins2 = ins[:-1] + [('I', ins[-1][1] + B)]
+            ab = gen.scenario(capb, 250, table, ins2)
+            a = gen.scenario(capb, 250, table, ins)
+            b = gen.scenario(capb, 250, table, [('I', B)])
+            pairs.append((len(cases), len(ins) - 1, 2, [x for _, x in ins], B))
+            cases += [ab, a, b]
+            continue
         ab = gen.scenario(capb, 250, table, ins + [('I', B)])
         b = gen.scenario(capb, 250, table, [('I', B)])
         As = [x for _, x in ins]
@@ -119,6 +129,16 @@ def streams(tier, rng):
     def post(cases_, outs):
         res = []
         for i, na, nb, As, B in pairs:
+            if nb == 2:
+                strip = lambda t: ' '.join(e for e in t.split(' ') if e and e[:1] != 'R')
+                x = strip(bevents(outs[i], na))
+                y = (strip(bevents(outs[i + 1], na)) + ' ' + strip(bevents(outs[i + 2], 0))).strip()
+                if ' E-350' in outs[i]:
+                    x = ' '.join(t for t in x.split(' ') if t != 'E-350')
+                    y = ' '.join(t for t in y.split(' ') if t != 'E-350')
+                if x != y:
+                    res.append((i, 'leak', 'message %r received in the same input call as the end of %r: the call does not do what A does followed by what B does on a fresh context\n  one call : %s\n  A then B: %s' % (B, As, x[:400], y[:400])))
+                continue
             x, y = bevents(outs[i], na), bevents(outs[i + 1], nb)
             if ' E-350' in outs[i]:
                 # A filled the error queue: the overflow notifications B then sees are an effect through the queue, which the property excepts
